@@ -59,7 +59,8 @@ class Contract:
     def __init__(self, target, *, params=None, returns="none", requires=(), ensures=(), raises=None,
                  modifies=(), loops=None, ghost=(), inline=(), props=(), abortable=False, ppi=(),
                  extern=False, trusted_reason=None, callables=None, locals=None, fresh_result=False,
-                 pure=False, self_type=None, ghost_params=None, escapes=(), notes="", allow_any_exception=False, varargs=False, uses=(), allocates=False, defaults=None, kwargs_param=None, prefer_ext=(), noreturn=False, returns_self=False, interference=None):
+                 pure=False, self_type=None, ghost_params=None, escapes=(), notes="", allow_any_exception=False, varargs=False, uses=(), allocates=False, defaults=None, kwargs_param=None, prefer_ext=(), noreturn=False, returns_self=False, interference=None, one_shot=()):
+        self.one_shot = tuple(one_shot)   # parameters that may be one-shot iterators: a second for-loop over them iterates over nothing
         # (modifies, [two-state clauses]): what an asynchronous handler may do between any two statements (rely condition)
         self.interference = interference
         self.returns_self = returns_self   # the method returns its receiver (keeps the static/dynamic type of the argument)
